@@ -672,6 +672,13 @@ func (h *HttpServer) handleExchangeCall(ctx context.Context, w http.ResponseWrit
 	// Record input stats
 	stats.RecordInput(inputBatch.NumRows(), batchBufferSize(inputBatch))
 
+	// The batch itself still carries the request's custom metadata (the cast
+	// preserves it, and an input that needs no cast is the raw request batch):
+	// strip the framework's keys there too, so the sealed tokens reach the
+	// handler neither through InputMetadata nor through input.Metadata().
+	inputBatch = withoutFrameworkTickMetadata(inputBatch)
+	defer inputBatch.Release()
+
 	out := newOutputCollector(schema, h.server.serverID, false)
 	out.setBudgets(h.maxResponseBytes, h.maxExternalizedResponseBytes, h.server.externalConfig != nil)
 	callCtx := &CallContext{
@@ -966,6 +973,24 @@ func stripFrameworkTickMetadata(meta arrow.Metadata) arrow.Metadata {
 		return arrow.Metadata{}
 	}
 	return arrow.NewMetadata(keys, values)
+}
+
+// withoutFrameworkTickMetadata returns batch with the framework's transport
+// keys removed from its own custom metadata (every occurrence; the order of
+// the remaining keys is kept). The caller owns the result and must Release it.
+func withoutFrameworkTickMetadata(batch arrow.RecordBatch) arrow.RecordBatch {
+	bwm, ok := batch.(arrow.RecordBatchWithMetadata)
+	if !ok {
+		batch.Retain()
+		return batch
+	}
+	meta := bwm.Metadata()
+	stripped := stripFrameworkTickMetadata(meta)
+	if stripped.Len() == meta.Len() {
+		batch.Retain()
+		return batch
+	}
+	return array.NewRecordBatchWithMetadata(batch.Schema(), batch.Columns(), batch.NumRows(), stripped)
 }
 
 // runProduceLoop runs the producer state machine until completion or the batch
